@@ -9,6 +9,7 @@ package main
 import (
 	"fmt"
 	"math/rand"
+	"os"
 	"strings"
 
 	"github.com/apmckinlay/gsuneido/core"
@@ -20,6 +21,7 @@ type pfGen struct {
 	consts []string // constants that become parameters in program B
 	inited map[string]bool
 	isStr  map[string]bool // name may hold a non-number
+	isOb   map[string]bool // name may hold an object / record
 	a, b   strings.Builder // program A (constants inline) / B (constants as parameters)
 	busy   map[string]bool // loop-control variables of the loop being generated: never assigned in its body
 }
@@ -41,7 +43,15 @@ func (g *pfGen) assign(name, c string) {
 	if strings.HasPrefix(c, "'") || c == "true" || c == "false" {
 		g.isStr[name] = true
 	}
+	if strings.HasPrefix(c, "#") {
+		g.isStr[name] = true
+		g.isOb[name] = true
+	}
 }
+
+// container constants: an object and a record with the same contents are Equal but not the same
+// kind (a missing member of a record reads as "", of an object it throws)
+var pfContainers = []string{"#()", "#{}", "#(a: 1)", "#{a: 1}", "#(1)", "#{x: 'y'}", "#(x: 'y')"}
 
 func (g *pfGen) intConst() string { return []string{"0", "1", "2", "5", "10", "100"}[g.r.Intn(6)] }
 
@@ -78,6 +88,15 @@ func (g *pfGen) obs() {
 	default:
 		e = x
 	}
+	if g.isOb[x] || g.isOb[y] {
+		// containers cannot be concatenated: observe their kind through a missing member
+		ob := x
+		if !g.isOb[ob] {
+			ob = y
+		}
+		g.both("try\nt = t $ '|' $ " + ob + ".zz $ (" + x + " is " + y + ")\ncatch (err)\nt = t $ '|!'\n")
+		return
+	}
 	g.both("t = t $ '|' $ " + e + "\n")
 }
 
@@ -102,7 +121,7 @@ func (g *pfGen) body(open bool) {
 }
 
 func (g *pfGen) control(t *lib.Trace) {
-	switch k := g.r.Intn(11); k {
+	switch k := g.r.Intn(13); k {
 	case 0:
 		v := g.loopVar()
 		t.Count("pf:for-classic")
@@ -160,6 +179,36 @@ func (g *pfGen) control(t *lib.Trace) {
 		g.inited[e] = true
 		g.isStr[e] = true
 		g.body(true)
+	case 11:
+		t.Count("pf:switch")
+		x := g.anyInited()
+		if g.isOb[x] {
+			x = "j"
+			g.both("j = 1\n")
+		}
+		g.both("switch " + x + "\n{\n")
+		var caseOnly []string
+		for _, c := range []string{"0", "1", "5"} {
+			g.both("case " + c + ":\n")
+			if g.r.Intn(3) == 0 {
+				// a local that gets its only (constant) value inside one case and is read in
+				// the following ones (not after the switch: that is rejected statically)
+				for _, n := range []string{"a", "b", "c", "d", "i", "k", "v"} {
+					if !g.inited[n] {
+						g.assign(n, g.intConst())
+						caseOnly = append(caseOnly, n)
+						break
+					}
+				}
+			}
+			g.body(false)
+		}
+		g.both("default:\n")
+		g.body(false)
+		g.both("}\n")
+		for _, n := range caseOnly {
+			g.inited[n] = false
+		}
 	case 9:
 		t.Count("pf:modify")
 		x := pfPool[g.r.Intn(4)]
@@ -188,12 +237,14 @@ func pfErrClass(msg string) string {
 }
 
 func propfoldCase(t *lib.Trace, r *rand.Rand) {
-	g := &pfGen{r: r, inited: map[string]bool{}, isStr: map[string]bool{}}
+	g := &pfGen{r: r, inited: map[string]bool{}, isStr: map[string]bool{}, isOb: map[string]bool{}}
 	for _, n := range pfPool {
 		if r.Intn(5) != 0 {
 			c := g.intConst()
 			if r.Intn(6) == 0 {
 				c = []string{"'x'", "'ab'", "true"}[r.Intn(3)]
+			} else if r.Intn(6) == 0 {
+				c = pfContainers[r.Intn(len(pfContainers))]
 			}
 			g.assign(n, c)
 		}
@@ -214,7 +265,7 @@ func propfoldCase(t *lib.Trace, r *rand.Rand) {
 	}
 	ret := "return t"
 	for _, n := range []string{"a", "b", "c", "d", "i", "k", "v", "pat"} {
-		if g.inited[n] {
+		if g.inited[n] && !g.isOb[n] {
 			ret += " $ ',' $ " + n
 		}
 	}
@@ -234,6 +285,9 @@ func propfoldCase(t *lib.Trace, r *rand.Rand) {
 	progB := hdr + g.b.String() + "}"
 	a, b := runProg(progA, args), runProg(progB, args)
 	t.Count("pf:programs")
+	if os.Getenv("VERIF_DEBUG_PF") != "" && strings.Contains(progA, "switch") {
+		fmt.Fprintf(os.Stderr, "%s\n  A=%s\n  B=%s\n", strings.ReplaceAll(progA, "\n", "; "), a, b)
+	}
 	if b.phase == "compile" {
 		t.Fail("generator-invalid-program", strings.ReplaceAll(progB, "\n", "; ")+" : "+b.err)
 		return
